@@ -64,7 +64,7 @@ var clauseKeywords = map[string]bool{
 	"func": true, "props": true, "requires": true, "ensures": true, "loop": true, "lit": true,
 	"decreases": true, "assigns": true, "yields": true, "yields2": true, "panics": true, "pure": true, "trusted": true,
 	"note": true, "hint": true, "lemma": true, "ghost": true, "invariant": true, "inline": true,
-	"effects": true, "reads": true, "heapfree": true, "stable": true, "calllog": true, "fnvalue-calllog": true, "preserves": true, "fresh-result": true, "noglobals": true, "noglobalstate": true, "functional": true, "abstract": true, "nopanic": true, "maypanic": true, "assume": true, "stateful": true, "iterator": true, "onpanic": true, "modular": true, "framed": true,
+	"effects": true, "reads": true, "heapfree": true, "stable": true, "calllog": true, "fnvalue-calllog": true, "preserves": true, "fresh-result": true, "noglobals": true, "noglobalstate": true, "functional": true, "abstract": true, "nopanic": true, "maypanic": true, "assume": true, "stateful": true, "iterator": true, "onpanic": true, "modular": true, "framed": true, "ordered": true,
 }
 
 func parseContractFile(p *Program, pkg *packages.Package, f *ast.File) ([]*Contract, error) {
